@@ -24,6 +24,9 @@ struct Shared {
     sent: Vec<Bytes>,       // client → server
     closed: bool,
     gate_closed: bool,
+    /// the next `send` hands its bytes to the peer and then reports an I/O error (e.g. `write_all`
+    /// succeeded and `flush` failed): the server has the request although the client saw `Err`
+    fail_next_send: bool,
 }
 
 #[derive(Debug, Clone)]
@@ -79,6 +82,9 @@ impl Peer {
             self.gate_notify.notify_one();
         }
     }
+    pub fn fail_next_send(&self) {
+        self.sh.lock().unwrap().fail_next_send = true;
+    }
     pub fn sent(&self) -> Vec<Bytes> {
         self.sh.lock().unwrap().sent.clone()
     }
@@ -132,9 +138,13 @@ impl SendHandle for MemSender {
                 }
                 if !g.gate_closed {
                     g.sent.push(data);
+                    let fail = std::mem::take(&mut g.fail_next_send);
                     drop(g);
                     self.peer.sent_notify.notify_waiters();
                     self.peer.sent_notify.notify_one();
+                    if fail {
+                        return Err(Error::Transport(std::io::Error::from(std::io::ErrorKind::BrokenPipe)));
+                    }
                     return Ok(());
                 }
             }
